@@ -425,6 +425,11 @@ func init() {
 			// only ever observable as identical to re-execution.
 			key := goString(a[0])
 			i := fr.i
+			if i.cfg.MapOrders {
+				// map iteration orders inside the setup are part of what is
+				// explored in this tier: the setup is re-executed on every path
+				return call(i, fr, token.NoPos, a[1], nil)
+			}
 			v, ok := i.setupCache[key]
 			if !ok {
 				nd, ndec := len(i.p.draws), len(i.p.decisions)
